@@ -1,18 +1,15 @@
 (* Proof/ChanFlowReq.v -- L1: the request queue.  An active producer (a worker
-   inside service() before it removed its request) implies requests <> []; the
-   unlocked flush of the I/O thread runs only while requests = []; hence the two
-   never coexist (the "conditional discipline" handle_write relies on). *)
+   inside service() before it removed its request) implies requests <> []; a
+   queued task implies requests <> [] and no active producer; len(requests) <=
+   lookahead + 1. *)
 From Coq Require Import List ZArith Bool Arith Lia.
 From WV Require Import Lib.Conc Model.ChanFlow Proof.ChanFlow.
 Import ListNotations.
 Local Open Scope Z_scope.
 
 Definition w_active (pc : wpc) : bool :=
-  match pc with WIdle | WCloseRel | WPopConn | WPopRel => false | _ => true end.
+  match pc with WIdle | WCloseRel => false | _ => true end.
 
-(* the I/O thread is inside _flush_some without the lock *)
-Definition io_unl (pc : iopc) : bool :=
-  match pc with IoFlush MU | IoSubR _ | IoSubW _ _ => true | _ => false end.
 
 (* program points reached only after readable() saw len(requests) <= lookahead *)
 Definition io_rd (pc : iopc) : bool :=
@@ -22,12 +19,29 @@ Definition io_rd (pc : iopc) : bool :=
   | _ => false
   end.
 
+Definition r_io (pc : iopc) : bool :=
+  match pc with IoRcvWc _ | IoRcvCwf _ | IoRcvApp _ | IoRcvRel _ => true | _ => false end.
+Definition r_w (pc : wpc) : bool :=
+  match pc with WCloseCwf | WCloseReq | WCloseRel => true | _ => false end.
+Definition r_t (t : tlpc) (rel : bool) : bool :=
+  match t with TPop | TConn => true | _ => false end || rel.
+
+
+Definition t_early (t : tlpc) : bool := match t with TAcq | TPop => true | _ => false end.
+Definition t_none (t : tlpc) : bool := match t with TNone => true | _ => false end.
+
 Definition L1 (p : params) (s : state) : Prop :=
-  (w_active (wk s) = true -> (1 <= nreq s)%nat)
-  /\ (queued s = true -> (1 <= nreq s)%nat /\ w_active (wk s) = false)
-  /\ (io_unl (io s) = true -> nreq s = 0%nat)
+  (w_active (wk s) = true -> (1 <= nreq s)%nat /\ t_none (tlc s) = true)
+  /\ (queued s = true -> (1 <= nreq s)%nat /\ w_active (wk s) = false /\ t_none (tlc s) = true)
+  /\ (t_early (tlc s) = true -> (1 <= nreq s)%nat)
   /\ (io_rd (io s) = true -> (nreq s <= look p)%nat)
-  /\ (nreq s <= S (look p))%nat.
+  /\ (nreq s <= S (look p))%nat
+  /\ rlock s = (if r_io (io s) then Some TIo else if r_w (wk s) then Some TW
+                else if r_t (tlc s) (trel s) then Some TT else None)
+  /\ r_io (io s) && r_w (wk s) = false
+  /\ r_io (io s) && r_t (tlc s) (trel s) = false
+  /\ r_w (wk s) && r_t (tlc s) (trel s) = false
+  /\ match tlc s with TPop | TConn => trel s = false | _ => True end.
 
 Lemma L1_init p : L1 p init.
 Proof. unfold L1, init; cbn; repeat split; intros; try discriminate; lia. Qed.
@@ -39,16 +53,27 @@ Ltac spec := repeat match goal with
   | H : false = true -> _ |- _ => clear H
   end.
 Ltac conj := repeat match goal with H : _ /\ _ |- _ => destruct H end.
-Ltac fin1 := dk; unfold L1; unf; cbn; gifs; cbn; repeat split; intros; try discriminate; try assumption; spec; conj;
-  try discriminate; try assumption; b2p; subst; cbn in *; spec; conj; try assumption; try zl;
-  try (match goal with |- ?b = false => destruct b eqn:?; [exfalso; spec; conj; zl | reflexivity] end).
+Ltac rwr := repeat match goal with
+  | H : r_w ?x = _ |- context [r_w ?x] => rewrite H
+  | H : r_io ?x = _ |- context [r_io ?x] => rewrite H
+  | H : r_t ?x ?y = _ |- context [r_t ?x ?y] => rewrite H
+  | H : w_active ?x = _ |- context [w_active ?x] => rewrite H
+  end.
+Ltac absurd1 := match goal with H : true = false |- _ => discriminate H | H : false = true |- _ => discriminate H end.
+Ltac dtl := match goal with t : tlpc |- _ => destruct t; cbn in *; try absurd1 end.
+Ltac core1 := spec; conj; try assumption; try absurd1; try exact I; try reflexivity; try zl; try (exfalso; zl).
+Ltac fin1 := dk; hifs; try discriminate; unfold L1; unf; cbn; rwr; gifs; cbn; rwr; repeat split; try assumption; intros;
+  try absurd1; try reflexivity; core1; b2p; subst; cbn in *; core1;
+  try (match goal with |- ?b = false => destruct b eqn:?; [exfalso; core1 | reflexivity] end);
+  try (match goal with |- ?b = true => destruct b eqn:?; [reflexivity | exfalso; core1] end);
+  try (dtl; core1).
 
 Lemma L1_step_io p s r res s' l : L1 p s -> step_io p s r res = Some (s', l) -> L1 p s'.
 Proof.
   intros H E. ds s. unfold L1 in H. cbn in H.
-  destruct H as (Ha & Hq & Hu & Hr & Hl).
+  destruct H as (Ha & Hq & Ht & Hr & Hl & Hk & Hx1 & Hx2 & Hx3 & Hx4).
   unfold step_io in E. cbn [ChanFlow.io] in E.
-  destruct io0; cbn in Hu, Hr.
+  destruct io0; cbn in Hr, Hk, Hx1, Hx2; subst rlock0.
   all: cbn in E; unf; cbn in E.
   all: split_ifs E; try discriminate; try inv_some.
   all: fin1.
@@ -57,32 +82,33 @@ Qed.
 Lemma L1_step_w p s r s' l : L1 p s -> step_w p s r = Some (s', l) -> L1 p s'.
 Proof.
   intros H E. ds s. unfold L1 in H. cbn in H.
-  destruct H as (Ha & Hq & Hu & Hr & Hl).
+  destruct H as (Ha & Hq & Ht & Hr & Hl & Hk & Hx1 & Hx2 & Hx3 & Hx4).
   unfold step_w in E. cbn [ChanFlow.wk] in E.
-  destruct wk0; cbn in Ha, Hq.
+  destruct wk0; cbn in Ha, Hq, Hk, Hx1, Hx3; subst rlock0.
   all: cbn in E; unf; cbn in E.
   all: split_ifs E; try discriminate; try inv_some.
   all: fin1.
-  all: try (idtac "left"; fail).
+Qed.
+
+Lemma L1_step_tail p s n s' l : L1 p s -> step_tail s n = Some (s', l) -> L1 p s'.
+Proof.
+  intros H E. ds s. unfold L1 in H. cbn in H.
+  destruct H as (Ha & Hq & Ht & Hr & Hl & Hk & Hx1 & Hx2 & Hx3 & Hx4).
+  unfold step_tail in E.
+  destruct n as [|[|[|[|[|[|n]]]]]]; cbn in E; try discriminate.
+  all: try (destruct tlc0; try discriminate); cbn in Ha, Hq, Ht, Hk, Hx2, Hx3, Hx4; subst rlock0.
+  all: cbn in E; split_ifs E; try discriminate; try inv_some.
+  all: fin1.
 Qed.
 
 Lemma L1_step p s c s' l : L1 p s -> step p s c = Some (s', l) -> L1 p s'.
 Proof.
-  destruct c as [r res|r|b|a]; cbn [step].
+  destruct c as [r res|r|n|a]; cbn [step].
   - apply L1_step_io.
   - apply L1_step_w.
-  - intros H E. ds s. unfold step_tail in E. cbn in E.
-    split_ifs E; try discriminate; inv_some; exact H.
+  - apply L1_step_tail.
   - intros H E. ds s. destruct a; cbn in E; split_ifs E; try discriminate; inv_some; exact H.
 Qed.
 
 Theorem L1_all p sched : L1 p (run p sched).
 Proof. unfold run. apply invariant_rule. apply L1_init. intros; eapply L1_step; eauto. Qed.
-
-(* the exclusion the unlocked flush relies on *)
-Theorem io_unlocked_excludes_producer p sched :
-  io_unl (io (run p sched)) = true -> w_active (wk (run p sched)) = false.
-Proof.
-  intros H. destruct (L1_all p sched) as (Ha & _ & Hu & _).
-  destruct (w_active (wk (run p sched))); auto. specialize (Ha eq_refl). specialize (Hu H). lia.
-Qed.
